@@ -59,7 +59,7 @@ def twin_without_timeout(case, sid):
     return new
 
 
-def evaluate(case):
+def evaluate_one(case):
     res = Result()
     trace, ix = run_case(case, run_on=False)
     shape_labels(case, trace, res)
@@ -124,3 +124,7 @@ def evaluate(case):
                       expiries=[dict(sched=sp['id'], T_abs=an['tau'], end=an['rex']['t'] if an['rex'] else None)
                                 for sp, an in hits], twins=twins)
     return res
+
+
+from ._rt import with_variants                     # noqa: E402
+evaluate = with_variants(evaluate_one)
